@@ -125,6 +125,10 @@ func (e *Exec) enterBlock(st *State, fr *Frame, b *ssa.BasicBlock, prev *ssa.Bas
 				n = len(rec.measure)
 			}
 			if n >= bound {
+				if e.inlineAll == 0 {
+					e.obligeNamed(st, fmt.Sprintf("%s#unwind.%d", e.ctxName(fr), lp.ordinal), "unwind", nil, "", False)
+					return nil, true
+				}
 				e.note(fmt.Sprintf("BOUNDED: loop %d of %s unrolled %d times; longer executions are not covered", lp.ordinal, fnName(fr.fn), bound))
 				return nil, true
 			}
